@@ -143,8 +143,15 @@ class ColumnBackend(ArraySchemaBackend):
                     validated_obj = validate_column(
                         check_obj, column_name, return_check_obj=True
                     )
-                    if validated_obj is not None:
+                    if is_table(validated_obj):
                         check_obj = validated_obj
+                    elif validated_obj is not None:
+                        # parsers reduce the frame to the parsed column: keep
+                        # the frame, without the rows that were dropped
+                        dropped = check_obj.index.difference(
+                            validated_obj.index
+                        )
+                        check_obj = check_obj[~check_obj.index.isin(dropped)]
 
                 validated_column = validate_column(
                     check_obj,
